@@ -157,13 +157,15 @@ class Ctx:
         m = re.search(r"Invariant (\S+) is violated", p.stdout)
         if m:
             r.violated = m.group(1)
-        m2 = re.search(r"Action property (\S+) is violated|Temporal properties were violated|property (\S+) is violated", p.stdout)
+        m2 = re.search(r"Action property (\S+) is violated|Temporal properties were violated|Temporal property (\S+) was violated|property (\S+) is violated", p.stdout)
         if m2 and not r.violated:
-            r.violated = m2.group(1) or m2.group(2) or "temporal"
+            r.violated = m2.group(1) or m2.group(2) or m2.group(3) or "temporal"
         if "Deadlock reached" in p.stdout and not r.violated:
             r.violated = "Deadlock"
         if coverage:
-            r.coverage_zero = re.findall(r"^<(\w+) line \d+, col \d+ to line \d+, col \d+ of module \w+>: 0:0$", p.stdout, re.M)
+            # TLC prints interim coverage blocks every minute; only the last block describes the whole run
+            cov = p.stdout[p.stdout.rfind("The coverage statistics at"):] if "The coverage statistics at" in p.stdout else p.stdout
+            r.coverage_zero = re.findall(r"^<(\w+) line \d+, col \d+ to line \d+, col \d+ of module \w+>: 0:0$", cov, re.M)
         if r.error is None and r.violated is None:
             if "Model checking completed. No error has been found" in p.stdout or (simulate and p.returncode in (0,)):
                 r.ok = True
